@@ -78,7 +78,11 @@ func c09(r *rt.Run) {
 	for b := 0; b < 0x80; b++ {
 		strs = append(strs, string([]byte{byte(b)}))
 	}
-	crit := []string{"\"", "'", "\\", "`", "\n", "\r", "\t", "\x00", "a", "é", " ", "😀", "\x7f", "{", "x"}
+	crit := []string{"\"", "'", "\\", "`", "\n", "\r", "\t", "\x00", "a", "é", " ", "😀", "\x7f", "{", "x", "\ufffd"}
+	// every boundary code point of the UTF-8 encoding lengths, the replacement character, BOM, line separators, noncharacters
+	for _, cp := range []rune{0x80, 0xff, 0x100, 0x7ff, 0x800, 0xd7ff, 0xe000, 0xfeff, 0xfffd, 0xfffe, 0xffff, 0x10000, 0x10ffff, 0x2028, 0x2029, 0x85, 0xa0} {
+		strs = append(strs, string(cp), "a"+string(cp)+"b", string(cp)+string(cp))
+	}
 	for _, a := range crit {
 		for _, b := range crit {
 			strs = append(strs, a+b)
